@@ -376,21 +376,96 @@ class LazyArr:
 
     __hash__ = None
 
-    def __mul__(self, o):
+    def _arith(self, o, fn, name):
         if self.kind != 'num':
-            raise Unsupported("arithmetic on sample arrays")
+            raise Unsupported("arithmetic (%s) on sample arrays" % name)
         f = self.frozen()
-        return LazyArr(self.shape, lambda idx: f.get(idx) * o, 'num', self.dtype)
+        if isinstance(o, real_np.ndarray):
+            o = from_numpy(o)
+        if isinstance(o, LazyArr):
+            if o.kind != 'num':
+                raise Unsupported("arithmetic (%s) on sample arrays" % name)
+            g = o.frozen()
+            if g.shape == f.shape:
+                return LazyArr(self.shape, lambda idx: fn(f.get(idx), g.get(idx)), 'num', self.dtype)
+            if g.size == 1:
+                o = g.sym_scalar()
+            else:
+                raise Unsupported("array arithmetic with broadcasting")
+        if isinstance(o, float) and not o.is_integer():
+            raise Unsupported("array arithmetic with a non-integral float")
+        return LazyArr(self.shape, lambda idx: fn(f.get(idx), o), 'num', self.dtype)
+
+    def __mul__(self, o):
+        return self._arith(o, lambda a, b: a * b, 'mul')
 
     __rmul__ = __mul__
 
     def __add__(self, o):
-        if self.kind != 'num':
-            raise Unsupported("arithmetic on sample arrays")
-        f = self.frozen()
-        return LazyArr(self.shape, lambda idx: f.get(idx) + o, 'num', self.dtype)
+        return self._arith(o, lambda a, b: a + b, 'add')
 
     __radd__ = __add__
+
+    def __sub__(self, o):
+        return self._arith(o, lambda a, b: a - b, 'sub')
+
+    def __rsub__(self, o):
+        return self._arith(o, lambda a, b: b - a, 'rsub')
+
+    def __floordiv__(self, o):
+        return self._arith(o, lambda a, b: a // b, 'floordiv')
+
+    def __mod__(self, o):
+        return self._arith(o, lambda a, b: a % b, 'mod')
+
+    def __neg__(self):
+        return self._arith(0, lambda a, b: -a, 'neg')
+
+    def __abs__(self):
+        return self._arith(0, lambda a, b: abs(a), 'abs')
+
+    def _order(self, o, op):
+        return self._arith(o, {'lt': lambda a, b: a < b, 'le': lambda a, b: a <= b, 'gt': lambda a, b: a > b,
+                               'ge': lambda a, b: a >= b}[op], op)
+
+    def __lt__(self, o):
+        r = self._order(o, 'lt'); r.dtype = 'bool'; return r
+
+    def __le__(self, o):
+        r = self._order(o, 'le'); r.dtype = 'bool'; return r
+
+    def __gt__(self, o):
+        r = self._order(o, 'gt'); r.dtype = 'bool'; return r
+
+    def __ge__(self, o):
+        r = self._order(o, 'ge'); r.dtype = 'bool'; return r
+
+    def _arg_extreme(self, smaller):
+        """argmin / argmax of a 1-d integer array (first occurrence), by forking comparisons."""
+        if self.kind != 'num' or self.ndim != 1:
+            raise Unsupported("argmin/argmax of this array")
+        n = self.shape[0]
+        n = int(n) if is_sym(n) else n
+        if n == 0:
+            raise ValueError("attempt to get argmin of an empty sequence")
+        best, bv = 0, self.get((0,))
+        for i in range(1, n):
+            v = self.get((i,))
+            if (v < bv) if smaller else (v > bv):
+                best, bv = i, v
+        return best, bv
+
+    def argmin(self, *a, **k):
+        return self._arg_extreme(True)[0]
+
+    def argmax(self, *a, **k):
+        return self._arg_extreme(False)[0]
+
+    def min(self, *a, **k):
+        return self._arg_extreme(True)[1]
+
+    def max(self, *a, **k):
+        return self._arg_extreme(False)[1]
 
     def __bool__(self):
         if self.size == 1:
@@ -614,6 +689,63 @@ class ShimNP:
 
     def dtype(self, x):
         return real_np.dtype(x)
+
+    def abs(self, a, **kw):
+        if isinstance(a, (LazyArr, SymInt)):
+            return abs(a)
+        return real_np.abs(a, **kw)
+
+    absolute = abs
+
+    def argmin(self, a, **kw):
+        if isinstance(a, LazyArr):
+            return a.argmin()
+        return real_np.argmin(a, **kw)
+
+    def argmax(self, a, **kw):
+        if isinstance(a, LazyArr):
+            return a.argmax()
+        return real_np.argmax(a, **kw)
+
+    def min(self, a, **kw):
+        if isinstance(a, LazyArr):
+            return a.min()
+        return real_np.min(a, **kw)
+
+    def max(self, a, **kw):
+        if isinstance(a, LazyArr):
+            return a.max()
+        return real_np.max(a, **kw)
+
+    amin, amax = min, max
+
+    def isclose(self, a, b, rtol=1e-05, atol=1e-08, **kw):
+        """|a - b| <= atol + rtol*|b| for integer-valued scalars: exact in rationals when rtol, atol are the defaults."""
+        if not self._lazy(a, b):
+            return real_np.isclose(a, b, rtol=rtol, atol=atol, **kw)
+        if isinstance(a, LazyArr) or isinstance(b, LazyArr):
+            if isinstance(a, LazyArr) and a.size == 1:
+                a = a.sym_scalar()
+            if isinstance(b, LazyArr) and b.size == 1:
+                b = b.sym_scalar()
+            if isinstance(a, LazyArr) or isinstance(b, LazyArr):
+                raise Unsupported("np.isclose on arrays")
+        if (rtol, atol) != (1e-05, 1e-08):
+            raise Unsupported("np.isclose with non-default tolerances")
+        for v in (a, b):
+            if isinstance(v, float) and not v.is_integer():
+                raise Unsupported("np.isclose on a non-integral float")
+        a = int(a) if isinstance(a, float) else a
+        b = int(b) if isinstance(b, float) else b
+        d = a - b
+        d = abs(d)
+        # 10^8 * |a-b| <= 1 + 10^3 * |b|
+        return (100000000 * d) <= (1 + 1000 * abs(b))
+
+    def allclose(self, a, b, **kw):
+        if not self._lazy(a, b):
+            return real_np.allclose(a, b, **kw)
+        return self.isclose(a, b, **kw)
 
 
 ALWAYS_LAZY = [False]
